@@ -324,6 +324,8 @@ struct DefInfo {
     qty_text: bool,
     unit: Option<String>,
     in_step: bool,
+    /// strict mode: (is text, unit) of the first reference quantity when the definition has none
+    group: Option<(bool, Option<String>)>,
 }
 
 struct Builder {
@@ -465,18 +467,28 @@ impl Builder {
                     qty = None;
                 }
                 if strict {
-                    if let (Some(q), true) = (&mut qty, d.has_qty) {
-                        // same kind of value and the definition's unit: nothing to warn about
-                        if q.value.is_text() != d.qty_text {
-                            qty = None;
-                        } else {
-                            q.unit = d.unit.clone();
-                            if q.blank_sep && !q.unit.as_ref().is_some_and(|u| u.chars().next().unwrap().is_alphabetic()) {
-                                q.blank_sep = false;
+                    // every quantity of a definition and its references: same kind of value, same unit
+                    let grp: Option<(bool, Option<String>)> = if d.has_qty { Some((d.qty_text, d.unit.clone())) } else { d.group.clone() };
+                    let dname = d.name.clone();
+                    if let Some(q) = &mut qty {
+                        match grp {
+                            Some((is_text, unit)) => {
+                                if q.value.is_text() != is_text {
+                                    qty = None;
+                                } else {
+                                    q.unit = unit;
+                                    if q.blank_sep && !q.unit.as_ref().is_some_and(|u| u.chars().next().unwrap().is_alphabetic()) {
+                                        q.blank_sep = false;
+                                    }
+                                }
+                            }
+                            None => {
+                                let g = Some((q.value.is_text(), q.unit.clone()));
+                                if let Some(dd) = self.defs(cookware).iter_mut().rev().find(|x| same_name(&x.name, &dname)) {
+                                    dd.group = g;
+                                }
                             }
                         }
-                    } else if let (Some(q), false) = (&mut qty, d.has_qty) {
-                        let _ = q;
                     }
                 }
             } else {
@@ -516,6 +528,7 @@ impl Builder {
                 qty_text: qty.as_ref().is_some_and(|q| q.value.is_text()),
                 unit: qty.as_ref().and_then(|q| q.unit.clone()),
                 in_step,
+                group: None,
             };
             self.defs(cookware).push(info);
         }
